@@ -2,7 +2,7 @@
    Reading a p-box as focal steps (XL_k, XR_k): the result bounds are the sorted lower / upper endpoints
    of the exact interval combinations (corner hulls, C01) of the paired steps. *)
 From Coq Require Import Reals Lra List Arith.
-From PUN Require Import Base.Num Base.Sort Model.Interval Model.Pbox Proofs.Hull Proofs.ListR Proofs.IntervalOps Proofs.DepOps Model.ArrayOps Gen.GenKernels Proofs.Kernels.
+From PUN Require Import Base.Num Base.Sort Model.Interval Model.Pbox Proofs.Hull Proofs.ListR Proofs.IntervalOps Proofs.DepOps Model.ArrayOps Gen.GenKernels Proofs.Kernels Model.PboxArith Gen.GenGlue Proofs.Glue.
 Import ListNotations.
 Open Scope R_scope.
 
@@ -59,6 +59,16 @@ Theorem C03_kernels_are_translated (op : R -> R -> R) (XL XR YL YR : list R) :
   gen_independent_op RN op XL XR YL YR = independent_op RN op XL XR YL YR.
 Proof. exact (conj (gen_perfect_op_is_model RN op XL XR YL YR) (conj (gen_opposite_op_is_model RN op XL XR YL YR) (gen_independent_op_is_model RN op XL XR YL YR))). Qed.
 
+(* TIE: add / sub / mul / div of Staircase (the dependency dispatch, the perfect <-> opposite exchange of sub and div, the negation /
+   reciprocal of the second operand) translated from pba/pbox_abc.py on every run are the operations of the model, on any number structure *)
+Theorem C03_operations_are_translated (N : Num) (steps : nat) (p_lo p_hi : N) (p q : pbox N) (d : dep) fuel :
+  gen_add N steps p_lo p_hi fuel p q d = padd N steps p_lo p_hi d p q /\
+  gen_sub N steps p_lo p_hi fuel p q d = psub N steps p_lo p_hi d p q /\
+  gen_mul N steps p_lo p_hi mul_fuel p q d = pmul N steps p_lo p_hi d p q /\
+  gen_div N steps p_lo p_hi mul_fuel p q d = pdiv N steps p_lo p_hi d p q.
+Proof. exact (conj (gen_add_is_model N steps p_lo p_hi fuel p q d) (conj (gen_sub_is_model N steps p_lo p_hi fuel p q d)
+              (conj (gen_mul_is_model N steps p_lo p_hi p q d) (gen_div_is_model N steps p_lo p_hi p q d)))). Qed.
+
 Print Assumptions C03_perfect.
 Print Assumptions C03_opposite.
 Print Assumptions C03_independent.
@@ -66,3 +76,4 @@ Print Assumptions C03_independent_block.
 Print Assumptions C03_perfect_add_stepwise.
 Print Assumptions C03_mirror.
 Print Assumptions C03_kernels_are_translated.
+Print Assumptions C03_operations_are_translated.
